@@ -102,7 +102,7 @@ def get_cases(ctx, fmts, rng, tier, trailing=(0, 3)):
 
 def set_cases(ctx, fmts, rng, tier, trailing=(0, 5)):
     ev = enum_values(ctx)
-    nr = 1 if tier == 'quick' else 20
+    nr = 1 if tier == 'quick' else 5
     cases = []
     for f in fmts:
         for fld in f.fields:
@@ -161,8 +161,12 @@ def raw_cases(ctx, rng, tier, setter):
                 pats = [bytes([0xff]) * nb, rng.bytes(nb)]
             elif quick and setter:
                 pats = [bytes(nb), bytes([0xff]) * nb, rng.bytes(nb)]
+            elif setter and q > 0:
+                # thorough writer runs: full pattern / value sets at quadlet 0 only; higher start quadlets (buffers up to 1 KiB)
+                # get two fills and two values each, otherwise the stream grows to millions of kilobyte-sized cases
+                pats = [bytes([0xff]) * nb, rng.bytes(nb)]
             else:
-                pats = patterns(rng, nb, first, w, 1 if quick else 8)
+                pats = patterns(rng, nb, first, w, 1 if quick else (2 if setter else 8))
             if nb == 0:
                 pats = [b'']
             for b in pats:
@@ -174,8 +178,10 @@ def raw_cases(ctx, rng, tier, setter):
                     vals = values_for(rng, w, 0)
                     if quick:
                         vals = [vals[2], vals[4] & ((1 << 64) - 1), rng.bits(64)] if q == 0 else [rng.bits(64)]
+                    elif q > 0:
+                        vals = [vals[4] & ((1 << 64) - 1), rng.bits(64)]
                     else:
-                        vals = vals[:6] + [rng.bits(64)]
+                        vals = vals[:4] + [rng.bits(64)]
                     for v in vals:
                         cases.append({'kind': 'set', 'cmd': 'RS %x %x %x %x %s %x' % (qw, q, o, w, hb, v),
                                       'spec': 'SN %x %x %s %x' % (first, w, hb, v), 'key': {'shape': 'q%d o%d w%d' % (q, o, w)}, 'buf': hb})
@@ -199,7 +205,7 @@ def run_cases(ctx, cases, env_extra=None):
     """runs implementation, model and reference on every case; fills impl/model/ref"""
     impl = vlib.run_harness(ctx, [c['cmd'] for c in cases], env_extra=env_extra)
     lines = [c['cmd'] for c in cases] + [c['spec'] for c in cases if c.get('spec')]
-    out = vlib.run_oracle(ctx, lines)
+    out = vlib.run_oracle(ctx, lines, parallel=True)      # G/S/I/RG/RS/SG/SS/SI/SX/SN/L commands carry their whole input
     n = len(cases)
     k = n
     for i, c in enumerate(cases):
